@@ -2750,9 +2750,11 @@ func (ir *iteratorRecord) iterate(step func(Value)) {
 			step(value)
 		})
 		if ret != nil {
-			_ = tryFunc(func() {
-				ir.returnIter()
-			})
+			if asUncatchableException(ret) == nil {
+				_ = tryFunc(func() {
+					ir.returnIter()
+				})
+			}
 			panic(ret)
 		}
 	}
